@@ -81,8 +81,8 @@ Definition ex_schema : schema :=
                     mk_field "x" (TScalar "int64") true false true true (Some [1; 1; 2; 2]);
                     mk_field "b" (TObject "A") false false true false None] (Some "id")]
     [mk_union "U" ["A"]] "Query".
-Definition ex_a1 := VObj "A" [("id", OOk (VLeaf (JNum 1%Z))); ("x", OOk (VLeaf (JNum 10%Z))); ("b", OOk VNull)].
-Definition ex_a2 := VObj "A" [("id", OOk (VLeaf (JNum 2%Z))); ("x", OOk (VLeaf (JNum 20%Z))); ("b", OOk ex_a1)].
+Definition ex_a1 := VObj "A" [("id", OOk (VLeaf (LNum 1%Z))); ("x", OOk (VLeaf (LNum 10%Z))); ("b", OOk VNull)].
+Definition ex_a2 := VObj "A" [("id", OOk (VLeaf (LNum 2%Z))); ("x", OOk (VLeaf (LNum 20%Z))); ("b", OOk ex_a1)].
 Definition ex_root := VObj "Query" [("as", OOk (VList [ex_a1; ex_a2; ex_a1])); ("u", OOk ex_a1)].
 Definition ex_query : squery :=
   mk_squery "" 1
